@@ -178,12 +178,35 @@ TreeVerdicts(inp, nodes, posq, groups, aux) ==
         ELSE IF aux.sraised /\ aux.ss # nodes[firstErr].s THEN "StrictErrorLeafIsFirstError:position"
         ELSE "ok"
 
+      (* ---------------- C19 (serialisation round trips; refactoring is a splice) ---------------- *)
+      (* aux.rts = << [kind, nodes] >> : the tree after pickle / eval(dump(indent)) serialised like the original;  *)
+      (* aux.dids = interned dump() of the original followed by those of eval(dump(indent)) for every indent style; *)
+      (* aux.refs = << [sel (node indices, ascending, pairwise disjoint), strs, got] >> : Grammar.refactor results  *)
+      badRt == {q \in 1..Len(aux.rts) : aux.rts[q].nodes # nodes}
+      badDid == {q \in 1..Len(aux.dids) : aux.dids[q] # aux.dids[1]}
+      StartOff(i) == Off(Rank(FirstLeaf(i)))
+      StopOff(i) == EndOff(Rank(LastLeaf(i)))
+      Splice(sel, strs) ==
+        LET F[q \in 0..Len(sel)] ==      \* <<text so far, offset consumed>>
+              IF q = 0 THEN << <<>>, 0 >>
+              ELSE LET p == F[q - 1] IN
+                   << p[1] \o SubSeq(inp, p[2] + 1, StartOff(sel[q])) \o strs[q], StopOff(sel[q]) >>
+            r == F[Len(sel)]
+        IN r[1] \o SubSeq(inp, r[2] + 1, Len(inp))
+      badRef == {q \in 1..Len(aux.refs) : aux.refs[q].got # Splice(aux.refs[q].sel, aux.refs[q].strs)}
+      C19Tree ==
+        IF badRt # {} THEN "SameTreeAfter:" \o aux.rts[Min(badRt)].kind
+        ELSE IF badDid # {} THEN "SameDumpAfterEvalDump"
+        ELSE IF badRef # {} THEN "RefactorIsSplice"
+        ELSE "ok"
+
       NodeClause(g, i) == CASE g = "C01" -> C01Node(i)
                             [] g = "C02" -> C02Node(i)
                             [] g = "C03" -> C03Node(i)
                             [] g = "C09" -> C09Node(i)
                             [] g = "C11" -> C11Node(i)
                             [] g = "C07" -> IF i = 1 THEN C07Tree ELSE "ok"
+                            [] g = "C19" -> IF i = 1 THEN C19Tree ELSE "ok"
                             [] OTHER -> "ok"
       Verdict(g) ==
         LET bad == {i \in 1..N : NodeClause(g, i) # "ok"} IN
